@@ -834,6 +834,113 @@ Proof.
   rewrite inject_Z_plus in H. exact H.
 Qed.
 
+
+(* ================================================================== integer evaluation *)
+Lemma lerpZ_rel den tn a b qa qb j : ~ inject_Z den == 0 ->
+  inject_Z a == qa * qpow (inject_Z den) j -> inject_Z b == qb * qpow (inject_Z den) j ->
+  inject_Z (lerpZ den tn a b) == lerpQ (inject_Z tn / inject_Z den) qa qb * qpow (inject_Z den) (S j).
+Proof.
+  intros Hd Ha Hb. unfold lerpZ. rewrite lerpQ_eq.
+  rewrite inject_Z_plus, !inject_Z_mult, Ha, Hb.
+  unfold Zminus. rewrite inject_Z_plus, inject_Z_opp. cbn [qpow]. field. exact Hd.
+Qed.
+
+Definition zq_rel (den : Z) (j : nat) (z : Z) (q : Q) : Prop := inject_Z z == q * qpow (inject_Z den) j.
+
+Lemma dcz_step_rel den tn j : ~ inject_Z den == 0 -> forall l lq,
+  Forall2 (zq_rel den j) l lq ->
+  Forall2 (zq_rel den (S j)) (dcz_step den tn l) (dc_step (inject_Z tn / inject_Z den) lq).
+Proof.
+  intros Hd l lq H. induction H as [|a qa l lq Ha Hl IH]; [constructor|].
+  destruct Hl as [|b qb l' lq' Hb Hl'].
+  - constructor.
+  - change (dcz_step den tn (a :: b :: l')) with (lerpZ den tn a b :: dcz_step den tn (b :: l')).
+    change (dc_step (inject_Z tn / inject_Z den) (qa :: qb :: lq'))
+      with (lerpQ (inject_Z tn / inject_Z den) qa qb :: dc_step (inject_Z tn / inject_Z den) (qb :: lq')).
+    constructor; [|exact IH].
+    apply lerpZ_rel; assumption.
+Qed.
+
+Lemma Forall2_length' {A B} (R : A -> B -> Prop) l l' : Forall2 R l l' -> length l = length l'.
+Proof. induction 1; cbn; congruence. Qed.
+
+Lemma dcz_step_length den tn l : length (dcz_step den tn l) = (length l - 1)%nat.
+Proof.
+  induction l as [|a l IH]; [reflexivity|].
+  destruct l as [|b r]; [reflexivity|].
+  change (dcz_step den tn (a :: b :: r)) with (lerpZ den tn a b :: dcz_step den tn (b :: r)).
+  cbn [length] in *. rewrite IH. lia.
+Qed.
+
+Lemma dcz_iter_rel den tn : ~ inject_Z den == 0 -> forall n j l lq,
+  length l = S n -> Forall2 (zq_rel den j) l lq ->
+  inject_Z (dcz_iter (S n) den tn l)
+  == dc_iter (S n) (inject_Z tn / inject_Z den) lq * qpow (inject_Z den) (j + n).
+Proof.
+  intros Hd. induction n as [|n IH]; intros j l lq Hl H.
+  - destruct H as [|a qa l lq Ha Hl']; [discriminate|].
+    destruct Hl'; [|discriminate]. cbn [dcz_iter dc_iter]. rewrite Nat.add_0_r. exact Ha.
+  - pose proof (Forall2_length' _ _ _ H) as Hlen.
+    destruct H as [|a qa l lq Ha Hl']; [discriminate|].
+    destruct Hl' as [|b qb l' lq' Hb Hl'']; [discriminate|].
+    change (dcz_iter (S (S n)) den tn (a :: b :: l'))
+      with (dcz_iter (S n) den tn (dcz_step den tn (a :: b :: l'))).
+    change (dc_iter (S (S n)) (inject_Z tn / inject_Z den) (qa :: qb :: lq'))
+      with (dc_iter (S n) (inject_Z tn / inject_Z den) (dc_step (inject_Z tn / inject_Z den) (qa :: qb :: lq'))).
+    rewrite (IH (S j) _ (dc_step (inject_Z tn / inject_Z den) (qa :: qb :: lq'))).
+    + replace (S j + n)%nat with (j + S n)%nat by lia. reflexivity.
+    + rewrite dcz_step_length, Hl. lia.
+    + apply dcz_step_rel; [exact Hd|]. constructor; [exact Ha|]. constructor; assumption.
+Qed.
+
+(* main result 5: the integer evaluation is the rational de Casteljau scaled by den^(count-1):
+   exact, no rounding *)
+Theorem decasteljauZ_lemma : forall den tn (l : list Z), (den <> 0)%Z -> l <> [] ->
+  inject_Z (decasteljauZ1 den tn l)
+  == decasteljau1 (inject_Z tn / inject_Z den) (map inject_Z l) * qpow (inject_Z den) (length l - 1).
+Proof.
+  intros den tn l Hd Hl. unfold decasteljauZ1, decasteljau1. rewrite map_length.
+  destruct l as [|a l']; [congruence|]. cbn [length].
+  replace (S (length l') - 1)%nat with (0 + length l')%nat by lia.
+  apply dcz_iter_rel.
+  - intros H. apply Hd. unfold Qeq in H. cbn in H. lia.
+  - reflexivity.
+  - clear. generalize (a :: l'). induction l as [|z l IH]; constructor; [|exact IH].
+    unfold zq_rel. cbn [qpow]. ring.
+Qed.
+
+Local Open Scope Z_scope.
+
+Theorem circle_h_lemma : forall quad a b,
+  let '(x, y, d) := circle_h quad a b in x * x + y * y = d * d.
+Proof.
+  intros quad a b. unfold circle_h.
+  destruct (quad mod 4) as [|[p|p|]|p]; try ring; destruct p; ring.
+Qed.
+
+Theorem h_seg_closer_lemma : forall xn yn d a b r,
+  h_seg_closer (xn, yn, d) a b r = true <->
+  exists n m : Z, 0 < m /\ 0 <= n <= m /\
+    zlerp_dist2 (xn, yn) (d * fst a, d * snd a) (d * fst b, d * snd b) n m < (d * r) * (d * r) * (m * m).
+Proof. intros. unfold h_seg_closer. apply seg_closer_than_lemma. Qed.
+
+(* rounding to the nearest multiple of 2^k *)
+Theorem round_shift_lemma : forall k z, 0 < k ->
+  2 * Z.abs (2 ^ k * round_shift k z - z) <= 2 ^ k.
+Proof.
+  intros k z Hk. unfold round_shift.
+  rewrite Z.shiftr_div_pow2, Z.shiftl_mul_pow2 by lia. rewrite Z.mul_1_l.
+  assert (Hp : 2 ^ k = 2 * 2 ^ (k - 1)).
+  { replace k with (1 + (k - 1)) at 1 by lia. rewrite Z.pow_add_r by lia. reflexivity. }
+  assert (Hpos : 0 < 2 ^ (k - 1)) by (apply Z.pow_pos_nonneg; lia).
+  set (h := 2 ^ (k - 1)) in *.
+  pose proof (Z.div_mod (z + h) (2 ^ k) ltac:(lia)) as Hdm.
+  pose proof (Z.mod_pos_bound (z + h) (2 ^ k) ltac:(lia)) as Hb.
+  lia.
+Qed.
+
+Local Open Scope Q_scope.
+
 (* ================================================================== circle and ellipse points *)
 Definition on_unit_circle (u : pt) : Prop := norm2 u == 1.
 
